@@ -5,6 +5,7 @@ cd /verif || exit 2
 missed=0
 for d in ${@:-seeded/*/}; do
   d=${d%/}; name=$(basename $d); prop=${name%%-*}; d=/verif/seeded/$name
+  if grep -q '"superseded"' $d/meta.json; then echo "$name SUPERSEDED (no longer breaks the property on the current HEAD; see meta.json)"; continue; fi
   if ! git -C /repo apply --check $d/patch.diff 2>/dev/null; then echo "$name SKIP (patch no longer applies to /repo HEAD)"; continue; fi
   r=$(tools/mutcheck.sh $d/patch.diff $prop 2>&1 | head -1 | cut -c1-220)
   case "$r" in *exit=1*) echo "$name detected: $r";; *) echo "$name NOT DETECTED: $r"; missed=$((missed+1));; esac
